@@ -666,6 +666,14 @@ SUMMARIES = {
     'nix::sys::time::TimeSpec::tv_sec': un_ref('ts_tv_sec'),
     'nix::sys::time::TimeSpec::tv_nsec': un_ref('ts_tv_nsec'),
     'std::num::<impl u16>::wrapping_add': wrapping('wadd'),
+    'std::num::<impl u16>::wrapping_mul': wrapping('wmul'),
+    'std::num::<impl u16>::saturating_add': bin_val('sat_add_u16'),
+    'std::num::<impl u16>::saturating_sub': bin_val('sat_sub_u16'),
+    'std::num::<impl u16>::abs_diff': bin_val('abs_diff'),
+    'std::cmp::min': bin_val('min'),
+    'std::cmp::max': bin_val('max'),
+    'std::cmp::Ord::min': bin_val('min'),
+    'std::cmp::Ord::max': bin_val('max'),
     'std::num::<impl u16>::wrapping_sub': wrapping('wsub'),
     'std::num::<impl u32>::wrapping_mul': wrapping('wmul'),
     'std::num::<impl u32>::wrapping_add': wrapping('wadd'),
